@@ -1092,3 +1092,19 @@ def arg_namesakes(ctx, prog, label="arg-namesake"):
                 if a[2] != pn and sibling(a[2], pn):
                     ctx.bad("%s@%s:%s(%s)" % (label, short(bd.path), short(c).split("::")[-1], pn), "parameter `%s` of %s is given `%s` although a sibling field `%s` of the same type exists: two settings are swapped" % (pn, short(c), expr_str(a)[:60], pn), bd.where(b.idx))
     ctx.check(n >= 500, "%s:census" % label, "%d field arguments of local calls examined" % n, "")
+
+
+def loop_exits_only_when_exhausted(ctx, body, block):
+    """The innermost natural loop around `block` is left only on the edge where its iterator's `next()` is None (unreachable arms
+    aside): no `break` / early return cuts the iteration short. None when `block` is in no loop."""
+    lp = innermost_loop(body, block)
+    if lp is None:
+        return None
+    _h, blocks_ = lp
+    exits = [(x, s_) for x in blocks_ for s_ in body.succs(x) if s_ not in blocks_ and body.blocks[s_].term.kind != "unreachable"]
+    gi_ = ctx.gi(body)
+    for x, s_ in exits:
+        gs_ = [g for g in gi_.all_guards() if g.edge == (x, s_)]
+        if not any(g.kind == "is" and g.name in ("None", "Break") and g.a is not None and g.a[0] == "call" and re.search(r"::next$", g.a[1] or "") for g in gs_):
+            return False
+    return bool(exits)
